@@ -12,12 +12,16 @@
 //   9 Put mb=A value=B (1000*(1+B%7) bytes)              10 Get mb=A
 //  11 Exec A*1e6 flops               12 Daemonize        13 OnExit tag=A       14 Kill actor A (index, 0-based)
 //  15 Yield                          16 Join actor A      17 Suspend actor A   18 Resume actor A
+//  19 AcquireT s=A timeout=B/8 seconds (Semaphore::acquire_timeout; result 1 = timed out, 0 = acquired)
 //
 // observation (one line):
-//   ok dl=<0|1> end=<clock> | <actor>;<actor>;... | sem=<v>,<v> | tr=<a>.<i>,... | ht=<a>.<i>,... | ex=<a>.<tag>.<failed>@<clock>,... | gx=...
+//   ok dl=<0|1> end=<clock> | <actor>;<actor>;... | sem=<v>,<v> | tr=<a>.<i>,... | ht=<a>.<i>,... | ex=<a>.<tag>.<failed>@<clock>,... | gx=... | hx=<a>.<i>.<k>,...
 //   actor := <pc>:<status F|B|K>:<i>.<result>@<clock>,...        (completed operations, in order)
 //   tr    := global order in which operations were *started* (only recorded when contexts/nthreads = 1)
 //   ht    := global order in which maestro *handled* the first simcall of each operation (SIMGRID_VERIF hook)
+//   hx    := ht (k=0) merged with the timer events (k=1: a Sleep returned; k=2: an AcquireT returned "timed out"),
+//            recorded when the actor resumes in user code, i.e. before any simcall of that scheduling round is handled
+//            (only recorded when contexts/nthreads = 1)
 //   ex    := on_exit callbacks grouped by actor (each actor's in execution order)
 //   gx    := global order of on_exit callbacks (only recorded when contexts/nthreads = 1)
 // status: F = ran to completion, B = never got past operation <pc> (blocked when the run ended), K = target of a Kill.
@@ -77,6 +81,10 @@ static std::vector<sg4::BarrierPtr> BA;
 static std::vector<sg4::Mailbox*> MB;
 static std::vector<std::pair<int, int>> trace;
 static std::vector<std::pair<int, int>> handled; // order in which maestro handled the first simcall of each operation
+struct Hx {
+  int a, i, k;
+};
+static std::vector<Hx> hx; // handled + timer events
 static std::vector<Ex> exits;
 static bool record_trace = true;
 static bool deadlock     = false;
@@ -96,6 +104,8 @@ static void on_simcall(long pid)
       if (A[i].cur_op >= 0 && not A[i].hooked) {
         A[i].hooked = true;
         handled.emplace_back((int)i, A[i].cur_op);
+        if (record_trace)
+          hx.push_back({(int)i, A[i].cur_op, 0});
       }
       return;
     }
@@ -115,6 +125,8 @@ static void actor_body(int me)
     switch (op.code) {
       case 0:
         sg4::this_actor::sleep_for(op.a / 8.0);
+        if (record_trace && op.a > 0)
+          hx.push_back({me, (int)i, 1});
         break;
       case 1:
         M[op.a]->lock();
@@ -184,6 +196,11 @@ static void actor_body(int me)
       case 18:
         A[op.a].ptr->resume();
         break;
+      case 19:
+        r = S[op.a]->acquire_timeout(op.b / 8.0) ? 1 : 0;
+        if (record_trace && r == 1)
+          hx.push_back({me, (int)i, 2});
+        break;
       default:
         break;
     }
@@ -228,6 +245,7 @@ static int run_case(const std::vector<long long>& v, int argc, char** argv)
   }
   trace.reserve(1024);
   handled.reserve(1024);
+  hx.reserve(2048);
   exits.reserve(256);
 
   std::vector<char*> args(argv, argv + argc);
@@ -298,6 +316,9 @@ static int run_case(const std::vector<long long>& v, int argc, char** argv)
     snprintf(buf, sizeof buf, "%s%d.%lld.%d@%.17g", i ? "," : "", exits[i].a, exits[i].tag, exits[i].failed, exits[i].clk);
     out += buf;
   }
+  out += " | hx=";
+  for (size_t i = 0; i < hx.size(); i++)
+    out += (i ? "," : "") + std::to_string(hx[i].a) + "." + std::to_string(hx[i].i) + "." + std::to_string(hx[i].k);
   out += "\n";
   fflush(stdout);
   if (write(1, out.data(), out.size()) < 0)
